@@ -36,6 +36,7 @@ inline MV m_index(MV const& m, L i) { return gather(m, rest(m, 1), [&](std::vect
 inline MV m_sliced(MV const& m, L a, L b) { return gather(m, cat({b - a}, rest(m, 1)), [&](std::vector<L> ix) { ix[0] += a; return ix; }); }
 inline MV m_strided(MV const& m, L s) { return gather(m, cat({m.size[0] / s}, rest(m, 1)), [&](std::vector<L> ix) { ix[0] *= s; return ix; }); }
 inline MV m_strided_ceil(MV const& m, L s) { return gather(m, cat({(m.size[0] + s - 1) / s}, rest(m, 1)), [&](std::vector<L> ix) { ix[0] *= s; return ix; }); }
+inline MV m_sliced_neg(MV const& m, L first, L last, L s) { return gather(m, cat({(first - last) / s}, rest(m, 1)), [&](std::vector<L> ix) { ix[0] = first - ix[0] * s; return ix; }); }  // sliced(first, last, -s), first > last
 inline MV m_dropped(MV const& m, L n) { return m_sliced(m, n, m.size[0]); }
 inline MV m_taked(MV const& m, L n) { return m_sliced(m, 0, n); }
 inline MV m_rotated(MV const& m) { auto ns = rest(m, 1); ns.push_back(m.size[0]);
